@@ -14,7 +14,7 @@ CHECKS = {
     ),
     "C02": dict(
         technique="runtime monitoring: seeded API histories on the real objects with a save after every step; offline checker (independent zipfile+lxml OPC reader) applying the closure rules to every saved file relative to the opened input; re-open and semantic snapshot comparison",
-        text="208 (quick) / 8 000 (thorough) histories of 10-40 operations (every relationship-creating/-dropping op of the public API, rejected calls, reads, re-open-and-continue) over the default template, 67 corpus decks and manufactured decks with gapped/out-of-order slide part names; ~2 500 / ~3e5 saves each checked for unique members, one resolvable content type per part equal to the in-memory part's type, no dangling internal relationship, no r:* reference without a relationship, office-document relationship to a presentation main part, no unreachable part written, every in-memory part present; each save re-opened and compared with the in-memory presentation through public readers.",
+        text="208 (quick) / 4 000 (thorough) histories of 10 / 30 operations (every relationship-creating/-dropping op of the public API, rejected calls, reads, re-open-and-continue) over the default template, 67 corpus decks and manufactured decks with gapped/out-of-order slide part names; ~2 500 / ~1.2e5 saves each checked for unique members, one resolvable content type per part equal to the in-memory part's type, no dangling internal relationship, no r:* reference without a relationship, office-document relationship to a presentation main part, no unreachable part written, every in-memory part present; each save re-opened and compared with the in-memory presentation through public readers.",
         note="Trusted: vlib/opcx.py; python-pptx's own readers for the re-open comparison (as the statement words it). Histories abandoned on an undocumented exception are counted (by op and exception) and make the run inconclusive above 20%.",
         design="§3 C02, Appendix B",
     ),
